@@ -426,7 +426,7 @@ pub fn check_state(w: &World, hist: &[Op], singles: &[Q], pairs: &[Q], t: &mut T
 }
 
 pub fn run(ctx: &Ctx) {
-    let depth = ctx.tier.pick(4usize, 5usize);
+    let depth = ctx.tier.pick(4usize, 6usize);
     ctx.set_rule("explicit-state BFS over histories of add-authoritative / add-cached / remove / clear on a 15-record menu (owners foo.bar.local, foobar.local, bar.local, local, _my.local, _mysrv.local, a._mysrv.local; classes IN/CH; A, AAAA, SRV, TXT, PTR) to the stated depth, each transition executed on the real ResourceRecordManager; states deduplicated by (record -> kind map, owners touched since the last clear); in every state every single question over 8 owners x 6 types x 3 classes x unicast bit and every ordered pair from a 24-question menu goes through the real build_reply and is judged by the reply model. non-trivial = state holds at least one record");
     ctx.assume("state abstraction: the real trie's shape is a function of the set of keys inserted since the last clear, which the fingerprint includes; validated by the insertion-order differential (every permutation of every <=3-record store gives the same verdicts)");
     ctx.assume("answers are compared as sets; optional subdomain answers are allowed, answers at the question's own name are required");
@@ -564,6 +564,11 @@ pub fn run(ctx: &Ctx) {
             cases.push(("scale", n, all.clone(), vec![]));
             cases.push(("scale", n, all.iter().copied().filter(|i| i % 5 != 0).collect(), all.iter().copied().filter(|i| i % 5 == 0).collect()));
         }
+        for n in [31usize, 32, 33, 255, 256, 257, 1023, 1024, 1025, 1100] {
+            // the registered record first and last, everything else cached
+            cases.push(("bucket", n, vec![0, n + 1], (1..=n).collect()));
+            cases.push(("bucket", n, vec![n + 1, 0], (1..=n).rev().collect()));
+        }
         {
             let n_cyc = extra_world("cyclic", 0).0.menu.len();
             let all: Vec<usize> = (0..n_cyc).collect();
@@ -607,7 +612,7 @@ pub fn run(ctx: &Ctx) {
                 ctx.violations(f);
             }
         });
-        ctx.space(&format!("odd and large stores: {} stores (14 odd-shaped records singly, in ordered pairs, all together and all-but-one; owners with labels of 256/300/260 bytes, binary labels, a dot inside a label, the root, SRV at 1- and 2-label owners, the DNS-SD meta-query name; 10..300 hosts x (A, SRV, PTR) fully authoritative and with every fifth record cached; PTR / CNAME / SRV records that refer to each other in cycles of length 1, 2 and 3, run in a child process) x every question over the world's names x 5 types x 2 classes", cases.len()), total.load(std::sync::atomic::Ordering::Relaxed), "complete");
+        ctx.space(&format!("odd and large stores: {} stores (14 odd-shaped records singly, in ordered pairs, all together and all-but-one; owners with labels of 256/300/260 bytes, binary labels, a dot inside a label, the root, SRV at 1- and 2-label owners, the DNS-SD meta-query name; one owner name holding 31..1100 network-learned records next to a registered one; 10..300 hosts x (A, SRV, PTR) fully authoritative and with every fifth record cached; PTR / CNAME / SRV records that refer to each other in cycles of length 1, 2 and 3, run in a child process) x every question over the world's names x 5 types x 2 classes", cases.len()), total.load(std::sync::atomic::Ordering::Relaxed), "complete");
         ctx.sample(json!({"kind": "extra", "world": "odd", "n": 0, "auth": [0, 1], "cached": []}));
     }
 }
@@ -648,6 +653,17 @@ pub fn extra_world(kind: &str, n: usize) -> (World, Vec<QN>) {
         for s in ["_dns-sd._udp.local", "_udp.local", "_tcp.local", "_services._dns-sd._udp.printer.local", "_SERVICES._DNS-SD._UDP.local", "hos.local", "hostx.local"] {
             qnames.push(nm(s));
         }
+    } else if kind == "bucket" {
+        // one owner name holding thousands of records: record 0 is the registered one, the rest
+        // are distinct address records of the same name (received from the network in the checks)
+        menu.push(arec(nm("host.local"), 0xc0a8_010a));
+        for i in 0..n {
+            menu.push(arec(nm("host.local"), 0x0a00_0000 + i as u32));
+        }
+        menu.push(arec(nm("other.local"), 7));
+        qnames.push(nm("host.local"));
+        qnames.push(nm("other.local"));
+        qnames.push(nm("local"));
     } else if kind == "cyclic" {
         // records that refer to each other in cycles: anything that follows references must stop
         menu.push(ptr("_printer._tcp.local", "_ipp._tcp.local"));
@@ -705,13 +721,22 @@ pub fn check_extra(kind: &str, n: usize, auth: &[usize], cached: &[usize]) -> (V
         let (w, qs) = extra_world(kind, n);
         let mut store = ResourceRecordManager::new();
         let mut model = RefStore::default();
+        let cached_first = kind == "bucket" && auth.first() != Some(&0);
+        if cached_first {
+            for i in cached {
+                store.add_cached_resource(w.lib[*i].clone());
+                model.recs.entry(*i).or_insert(Kind::Cached);
+            }
+        }
         for i in auth {
             store.add_authoritative_resource(w.lib[*i].clone());
             model.recs.insert(*i, Kind::Auth);
         }
-        for i in cached {
-            store.add_cached_resource(w.lib[*i].clone());
-            model.recs.entry(*i).or_insert(Kind::Cached);
+        if !cached_first {
+            for i in cached {
+                store.add_cached_resource(w.lib[*i].clone());
+                model.recs.entry(*i).or_insert(Kind::Cached);
+            }
         }
         let mut bad: Vec<(String, String)> = Vec::new();
         for q in &qs {
@@ -719,7 +744,29 @@ pub fn check_extra(kind: &str, n: usize, auth: &[usize], cached: &[usize]) -> (V
                 bad.push((tag, format!("question {:?} type {} class {}: {}", q.name, q.qtype, q.qclass, d)));
             }
         }
-        (bad, qs.len() as u64)
+        let mut asked = qs.len() as u64;
+        if kind == "scale" && bad.is_empty() {
+            // churn: remove every third record, ask again; register them again, ask again
+            let gone: Vec<usize> = model.recs.keys().copied().filter(|i| i % 3 == 1).collect();
+            for phase in 0..2 {
+                for i in &gone {
+                    if phase == 0 {
+                        store.remove_resource_record(&w.lib[*i]);
+                        model.recs.remove(i);
+                    } else {
+                        store.add_authoritative_resource(w.lib[*i].clone());
+                        model.recs.insert(*i, Kind::Auth);
+                    }
+                }
+                for q in &qs {
+                    asked += 1;
+                    for (tag, d) in judge_q(&w, &store, &model, std::slice::from_ref(q), 0x4d54, &[]) {
+                        bad.push((format!("{}|after-churn", tag), format!("after {} {} records: question {:?} type {} class {}: {}", if phase == 0 { "removing" } else { "re-registering" }, gone.len(), q.name, q.qtype, q.qclass, d)));
+                    }
+                }
+            }
+        }
+        (bad, asked)
     });
     match r {
         Err(pn) => (vec![finding(format!("C13|extra|{}", pn.sig()), format!("{:?}", pn), case)], 0),
